@@ -588,6 +588,12 @@ def setup():
                 print("setup: translator for %s failed closed: %r" % (p, e))
     with Lock():
         refresh_makefile()
-        rc, out = sh(["make", "-j16", "-k"], 3600, cwd=COQ)
+        rc, out = sh(["make", "-j16", "-k"], 6 * 3600, cwd=COQ)
     print("\n".join(out.splitlines()[-15:]))
-    return 0 if rc == 0 else 1
+    if rc != 0:
+        # A file that fails to build is reported by the check of the property it belongs to
+        # (proof stage); it must not prevent the other checks from running.
+        print("setup: make reported errors (exit %d); affected properties will report them" % rc)
+    built = sum(1 for f in coq_sources() if os.path.exists(os.path.join(COQ, f + "o")))
+    print("setup: %d of %d Coq files built" % (built, len(coq_sources())))
+    return 0 if built > 0 else 1
